@@ -532,6 +532,8 @@ class BasicContiguousVector<cntgs::Options<Option...>, Parameter...>
     {
         clear();
         deallocate_locator();
+        // nothing can be stored until the assignment below has succeeded (it may throw)
+        max_element_count_ = size_type{};
         memory_ = other.memory_;
         ElementLocatorAndFixedSizes other_locator{other.locator_, other.memory_begin(),     other.max_element_count_,
                                                   memory_begin(), other.max_element_count_, get_allocator()};
